@@ -171,6 +171,24 @@ def create_case(case, d):
         call = lambda: src.copy(pth, overwrite=ow)
     elif f == 'rcopy':
         call = lambda: rsrc.copy(pth, overwrite=ow)
+    elif f == 'asraggedarray_fail_empty':
+        call = lambda: darr.asraggedarray(pth, [], overwrite=ow)
+    elif f == 'asraggedarray_fail_atom':
+        call = lambda: darr.asraggedarray(pth, [[1, 2], [[3, 4]]], overwrite=ow)
+    elif f == 'asraggedarray_fail_gen':
+        def g():
+            yield [1.0, 2.0]
+            raise RuntimeError('source fails')
+        call = lambda: darr.asraggedarray(pth, g(), overwrite=ow)
+    elif f == 'asraggedarray_fail_type':
+        call = lambda: darr.asraggedarray(pth, [['a', 'b']], overwrite=ow)
+    elif f == 'asarray_fail_gen':
+        def g2():
+            yield np.arange(3)
+            raise RuntimeError('source fails')
+        call = lambda: darr.asarray(pth, g2(), overwrite=ow)
+    elif f == 'asarray_fail_type':
+        call = lambda: darr.asarray(pth, ['a', 'b'], overwrite=ow)
     elif f == 'archive':
         # the archive path is the existing thing
         call = lambda: src.archive(filepath=base, overwrite=ow)
